@@ -233,6 +233,13 @@ def node_of(address):
 
 # ---------------------------------------------------------------------------
 WORKBOOKS = {
+    # C12: a CSE array formula fed by formula cells
+    'csef': dict(
+        inputs={'A1': 3},
+        formulas={'B1': ('Plus', ['A1'], 1), 'B2': ('Plus', ['A1'], 2),
+                  'E1': ('Plus', ['D1', 'D2'], 0)},
+        ranges={'B1:B2': [['B1'], ['B2']]},
+        cse={'D1:D2': ('B1:B2', 2)}),
     # an unbounded range one of whose cells is a formula (C09: failing member)
     'aliasf': dict(
         inputs={'A1': 1},
